@@ -234,6 +234,14 @@ def gen_level_code(level, var, mode, ind, uid, tag=None):
                     L.append('%s{ using T = decltype(%s.%s()); %s.%s(gd::make<T>(tq.num())); }' % (ind, var, fname, var, fname))
             else:
                 call = '%s.%s(c)' % (var, fname) if use_c else '%s.%s()' % (var, fname)
+                if mode == 'cur' and tag is not None:
+                    # get_by_tag with a cursor behaves exactly like the named cursor accessor: same value, and the
+                    # caller's cursor ends at the same position (checked on a copy of the cursor taken before the call)
+                    L.append('%s{ auto c2 = c; const auto bt = gd::bits_of(sbepp::get_by_tag<%s::%s>(%s, c2)); '
+                             'const auto nm = gd::bits_of(%s); gd::obs(out, pfx + "%s", nm); '
+                             'if(bt != nm || c2.pointer() != c.pointer()) out.push_back("BYTAG-CURSOR-MISMATCH:" + pfx + "%s"); }' % (
+                                 ind, tag, fname, var, call, fname, fname))
+                    continue
                 L.append('%sgd::obs(out, pfx + "%s", gd::bits_of(%s));' % (ind, fname, call))
                 if mode == 'ra' and tag is not None:
                     L.append('%sif(gd::bits_of(sbepp::get_by_tag<%s::%s>(%s)) != gd::bits_of(%s.%s())) out.push_back("BYTAG-MISMATCH:" + pfx + "%s");' % (
@@ -243,7 +251,12 @@ def gen_level_code(level, var, mode, ind, uid, tag=None):
             call = '%s.%s(c)' % (var, fname) if use_c else '%s.%s()' % (var, fname)
             if by_tag:
                 call = 'sbepp::get_by_tag<%s::%s>(%s)' % (tag, fname, var)
-            L.append('%s{ auto %s = %s;' % (ind, fv, call))
+            if mode == 'cur' and tag is not None:
+                L.append('%s{ auto c2 = c; auto bt_ = sbepp::get_by_tag<%s::%s>(%s, c2); auto %s = %s; '
+                         'if(sbepp::addressof(bt_) != sbepp::addressof(%s) || c2.pointer() != c.pointer()) '
+                         'out.push_back("BYTAG-CURSOR-MISMATCH:" + pfx + "%s");' % (ind, tag, fname, var, fv, call, fv, fname))
+            else:
+                L.append('%s{ auto %s = %s;' % (ind, fv, call))
             if mode == 'ra' and tag is not None:
                 L.append('%s  if(sbepp::addressof(sbepp::get_by_tag<%s::%s>(%s)) != sbepp::addressof(%s)) out.push_back("BYTAG-MISMATCH:" + pfx + "%s");' % (
                     ind, tag, fname, var, fv, fname))
@@ -270,7 +283,12 @@ def gen_level_code(level, var, mode, ind, uid, tag=None):
         call = '%s.%s(c)' % (var, g['name']) if use_c else '%s.%s()' % (var, g['name'])
         if by_tag:
             call = 'sbepp::get_by_tag<%s::%s>(%s)' % (tag, g['name'], var)
-        L.append('%s{ auto %s = %s;' % (ind, gv, call))
+        if mode == 'cur' and tag is not None:
+            L.append('%s{ auto c2 = c; auto bt_ = sbepp::get_by_tag<%s::%s>(%s, c2); auto %s = %s; '
+                     'if(sbepp::addressof(bt_) != sbepp::addressof(%s) || c2.pointer() != c.pointer()) '
+                     'out.push_back("BYTAG-CURSOR-MISMATCH:" + pfx + "%s");' % (ind, tag, g['name'], var, gv, call, gv, g['name']))
+        else:
+            L.append('%s{ auto %s = %s;' % (ind, gv, call))
         if mode == 'ra' and tag is not None:
             L.append('%s  if(sbepp::addressof(sbepp::get_by_tag<%s::%s>(%s)) != sbepp::addressof(%s)) out.push_back("BYTAG-MISMATCH:" + pfx + "%s");' % (
                 ind, tag, g['name'], var, gv, g['name']))
@@ -303,6 +321,11 @@ def gen_level_code(level, var, mode, ind, uid, tag=None):
                 ind, dv, var, d['name'], dv, var, d['name']))
         elif enc:
             L.append('%s{ auto %s = %s; gd::set_data(%s, tq.bytes()); }' % (ind, dv, call, dv))
+        elif mode == 'cur' and tag is not None:
+            L.append('%s{ auto c2 = c; auto bt_ = sbepp::get_by_tag<%s::%s>(%s, c2); auto %s = %s; '
+                     'if(sbepp::addressof(bt_) != sbepp::addressof(%s) || c2.pointer() != c.pointer()) '
+                     'out.push_back("BYTAG-CURSOR-MISMATCH:" + pfx + "%s"); gd::obs_data(out, pfx + "%s", %s, false); }' % (
+                         ind, tag, d['name'], var, dv, call, dv, d['name'], d['name'], dv))
         else:
             L.append('%s{ auto %s = %s; gd::obs_data(out, pfx + "%s", %s, %s); }' % (
                 ind, dv, call, d['name'], dv, 'false' if use_c else 'true'))
